@@ -37,14 +37,17 @@ THEOREMS = [
     "Ymq.C15.suyama_add_g_on_curve",
     "Ymq.C15.suyama_generator_on_curve",
     "Ymq.C15.params_point_on_curve",
+    "Ymq.C15.suyama_params_spec",
+    "Ymq.C15.addext_self_zero",
     "Ymq.C15.from_point_on_curve",
+    "Ymq.C15.chainmul_degenerate_witness",
 ]
 PROFILES = ["release", "chk"]
 TIMEOUT = 30.0
 W = 1 << 64
 HYPOTHESES = []
 
-RULE = ("scalars: 0..4096, powers of two, all-ones, everything within 16 of 2^64 and 2^32, 33-opcode scalars, SmoothBase "
+RULE = ("points of large order modulo every prime factor (random points, prime factors >= 2^31, factors recorded for the oracle); scalars: 0..4096, powers of two, all-ones, everything within 16 of 2^64 and 2^32, 33-opcode scalars, SmoothBase "
         "blocks (B1 16..60000), random; 1024-bit scalars sparse/dense/top-word patterns; moduli prime and composite 1..8 "
         "words (prime factors >= 2^31); both curve families (Suyama-11 a=-1, (3s+5,4s+5) a=+1), several seeds; explicit "
         "on-curve and off-curve coordinates for the formula ops; non-trivial = scalar > 7 or a formula op; distinct by request")
@@ -221,7 +224,8 @@ def scalars64(rng, count):
     for b1 in (16, 50, 200, 1000, 5000, 60000):
         for lg in (False, True):
             ks += smoothbase(b1, lg)[0]
-    while len(ks) < count:
+    fixed = len(ks)
+    while len(ks) < fixed + count:
         c = rng.randrange(5)
         if c == 0:
             ks.append(rng.getrandbits(64))
@@ -233,7 +237,7 @@ def scalars64(rng, count):
             ks.append(int("".join(rng.choice("0789F1") for _ in range(rng.randrange(1, 17))), 16))
         else:
             ks.append(len33_scalar(rng) >> rng.randrange(0, 8))
-    return ks[:max(count, 0)] if count < len(ks) else ks
+    return ks
 
 
 def scalars1024(rng, count):
@@ -250,7 +254,8 @@ def scalars1024(rng, count):
                    ((1 << (i - 1)) << (64 * (w - 1))) | rng.getrandbits(64 * (w - 1)) if w > 1 else top]
     for b1 in (5000, 20000, 60000):
         ks += smoothbase(b1, True)[1]
-    while len(ks) < count:
+    fixed = len(ks)
+    while len(ks) < fixed + count:
         c = rng.randrange(5)
         bits = rng.choice([rng.randrange(1, 1025), 1024, rng.randrange(960, 1025), 64 * rng.randrange(1, 17)])
         if c == 0:
@@ -274,7 +279,7 @@ def big_prime(rng, bits):
 
 
 def modulus(rng, words, composite):
-    """odd modulus with `words` 64-bit words, prime factors >= 2^31, coprime to 6"""
+    """(n, prime factors): odd modulus with `words` 64-bit words (at most 500 bits, the library's limit), prime factors >= 2^31"""
     bits = 64 * words - rng.choice([0, 0, 1, 2, rng.randrange(0, 32)])
     bits = max(bits, 64 * (words - 1) + 2, 40)
     if words == 8:
@@ -282,7 +287,8 @@ def modulus(rng, words, composite):
         # (C07) and arith_gcd::inv_mod, which overflows in the checked profile for a 511-bit modulus (C09).
         bits = min(bits, 500)
     if not composite:
-        return big_prime(rng, bits)
+        p = big_prime(rng, bits)
+        return p, [p]
     k = rng.choice([2, 2, 3]) if bits >= 96 else 2
     parts = []
     rem = bits
@@ -294,7 +300,7 @@ def modulus(rng, words, composite):
         p = big_prime(rng, max(rem, 31))
         n = math.prod(parts) * p
         if n.bit_length() <= 500 and ((n.bit_length() + 63) // 64 == words or words == 1 and n.bit_length() <= 64):
-            return n
+            return n, parts + [p]
         rem += 1 if (n.bit_length() + 63) // 64 < words else -1
 
 
@@ -312,6 +318,31 @@ def fmt(*xs):
     return " ".join(str(x) for x in xs)
 
 
+FINDING_DEGENERATE = "chainmul-zero-triple-on-degenerate-step"
+
+# (request, what): scalar64_chainmul returns the zero triple although k.P is a regular point
+DEGENERATE = [
+    ("ed_chainmul 1000000007 false 5 1 0 1 3", "P = (1,0,1) has order 4"),
+    ("ed_chainmul 1000000007 false 5 0 1 1 3", "P = neutral element: addext(O, O) = 0"),
+    ("ed_chainmul 10007 true 2144 4215 9490 3786 3809", "P of order 1269, chain [1,8,7,6,7]: prefix m = 1904 has 2m = 1 mod 1269"),
+    ("ed_chainmul 10007 false 2750 178 7677 7955 1895", "P of order 132"),
+    ("ed128_chainmul 10007 4215 9490 3786 3809", "same point through ecm128 scalar64_mul"),
+]
+
+
+def listed_findings():
+    import json, os
+    try:
+        data = json.load(open(os.path.join(os.path.dirname(os.path.dirname(os.path.abspath(__file__))), "known_findings.json")))
+        return {e["key"] for e in data.get("findings", []) if e.get("property") == PID}
+    except Exception:
+        return set()
+
+
+def ftag(factors):
+    return "f=" + ",".join(map(str, factors))
+
+
 def cases(tier, rng, extended=False):
     q = tier == "quick"
     mul = 10 if extended else 1
@@ -326,12 +357,20 @@ def cases(tier, rng, extended=False):
     # --- SmoothBase blocks as the code builds them
     for b1, lg in ((16, 0), (200, 0), (200, 1), (5000, 0), (5000, 1), (60000, 1)):
         yield Case(f"smoothbase {b1} {'true' if lg else 'false'}", k=False)
-    ks64 = scalars64(rng, 600)
+    # --- documented incompleteness of the dedicated extended addition: compared with the model (K);
+    #     judged by the oracle (and reported as KNOWN-FINDING) once the finding is listed
+    judged = FINDING_DEGENERATE in listed_findings()
+    for line, _ in DEGENERATE:
+        yield Case(line, o=judged, tag="degenerate")
+    # structured scalars (all of them: 33-opcode scalars, SmoothBase blocks for every B1, ..) plus random ones
+    ks64 = scalars64(rng, 1500)
     ks1024 = scalars1024(rng, 300)
+    smooth64 = [k for b1 in (5000, 60000) for lg in (False, True) for k in smoothbase(b1, lg)[0]]
     nmod = (36 if q else 400) * mul
     for i in range(nmod):
         words = 1 + i % 8
-        n = modulus(rng, words, composite=(i // 8) % 2 == 1)
+        n, fs = modulus(rng, words, composite=(i // 8) % 2 == 1)
+        ft = ftag(fs)
         for a in (1, -1):
             tw = "true" if a == -1 else "false"
             d, P = curve_point(rng, n, a)
@@ -339,43 +378,48 @@ def cases(tier, rng, extended=False):
             lam = rng.randrange(1, n)
             Q = tuple(c * lam % n for c in Q)
             # formulas on curve points (K + O), P = Q and P = -Q included
-            yield Case(f"ed_ops {n} {tw} {d} {fmt(*P)} {fmt(*Q)}")
-            yield Case(f"ed_ops {n} {tw} {d} {fmt(*P)} {fmt(*P)}")
-            yield Case(f"ed_ops {n} {tw} {d} {fmt(*Q)} {fmt((-P[0]) % n, P[1], P[2])}")
-            yield Case(f"ed_ops {n} {tw} {d} {fmt(*Q)} 0 1 1")
+            yield Case(f"ed_ops {n} {tw} {d} {fmt(*P)} {fmt(*Q)}", tag=ft)
+            yield Case(f"ed_ops {n} {tw} {d} {fmt(*P)} {fmt(*P)}", tag=ft)
+            yield Case(f"ed_ops {n} {tw} {d} {fmt(*Q)} {fmt((-P[0]) % n, P[1], P[2])}", tag=ft)
+            yield Case(f"ed_ops {n} {tw} {d} {fmt(*Q)} 0 1 1", tag=ft)
             # arbitrary coordinates (K only: the formulas are polynomial maps)
             yield Case(f"ed_ops {n} {tw} {rng.randrange(n)} {fmt(*[gen.residue(rng, n) for _ in range(6)])}", o=False)
-            for k in [rng.choice(ks64) for _ in range(4)] + [0, 1, rng.choice([W - 1, W - 3, 0x9111111111111111])]:
-                yield Case(f"ed_chainmul {n} {tw} {d} {fmt(*P)} {k}")
-            yield Case(f"ed_chainmul1024 {n} {tw} {d} {fmt(*P)} {rng.choice(ks1024)}")
+            for k in [rng.choice(ks64) for _ in range(3)] + [rng.choice(smooth64), 0, 1,
+                                                             rng.choice([W - 1, W - 3, 0x9111111111111111])]:
+                yield Case(f"ed_chainmul {n} {tw} {d} {fmt(*P)} {k}", tag=ft)
+            yield Case(f"ed_chainmul1024 {n} {tw} {d} {fmt(*P)} {rng.choice(ks1024)}", tag=ft)
         if words <= 2:
             d, P = curve_point(rng, n, -1)
             Q = ed_mul(n, -1, d, rng.randrange(2, 1000), P)
-            yield Case(f"ed128_ops {n} {fmt(*P)} {fmt(*Q)}")
+            yield Case(f"ed128_ops {n} {fmt(*P)} {fmt(*Q)}", tag=ft)
             yield Case(f"ed128_ops {n} {fmt(*[gen.residue(rng, n) for _ in range(6)])}", o=False)
-            for k in [rng.choice(ks64) for _ in range(4)] + [1, W - 1, 0x9111111111111111]:
-                yield Case(f"ed128_chainmul {n} {fmt(*P)} {k}")
-            yield Case(f"ed128_chainmul {n} {fmt(*P)} 0")
+            for k in [rng.choice(ks64) for _ in range(3)] + [rng.choice(smooth64), 1, W - 1, 0x9111111111111111]:
+                yield Case(f"ed128_chainmul {n} {fmt(*P)} {k}", tag=ft)
+            yield Case(f"ed128_chainmul {n} {fmt(*P)} 0", tag=ft)
         # --- curves as ecm() builds them (O only)
         for fam in ("s", "e"):
             for seed in (2, 3, rng.randrange(2, 1 << 16), rng.randrange(2, 1 << 32)):
-                ks = [rng.choice(ks64) for _ in range(rng.choice([1, 1, 2, 3]))]
-                yield Case(f"ecm_mul {n} {fam} {seed} {','.join(map(str, ks))}", k=False)
-            yield Case(f"ecm_mul1024 {n} {fam} {rng.randrange(2, 1 << 20)} {rng.choice(ks1024)}", k=False)
+                ks = [rng.choice(ks64 + smooth64) for _ in range(rng.choice([1, 1, 2, 3]))]
+                if len(ks) > 1:          # k = 0 gives the neutral element, on which the next chainmul degenerates
+                    ks = [k or 1 for k in ks]
+                yield Case(f"ecm_mul {n} {fam} {seed} {','.join(map(str, ks))}", k=False, tag=ft)
+            yield Case(f"ecm_mul1024 {n} {fam} {rng.randrange(2, 1 << 20)} {rng.choice(ks1024)}", k=False, tag=ft)
         if words <= 2:
             for seed in (2, 5, rng.randrange(2, 1 << 16)):
-                yield Case(f"ecm128_mul {n} {seed} {rng.choice(ks64)},{rng.choice(ks64)}", k=False)
+                yield Case(f"ecm128_mul {n} {seed} {rng.choice(ks64) or 1},{rng.choice(ks64 + smooth64) or 1}", k=False, tag=ft)
         for seed in (2, 3, 4, 7, rng.randrange(2, 1 << 32)):
             yield Case(f"suyama {n} {seed}", k=False)
         x, y, z = [gen.residue(rng, n) for _ in range(3)]
         yield Case(f"suyama_ops {n} {x} {y} {z}", o=False)
-    # small moduli: curve construction hits its error paths (factor found while building the curve)
+    # small moduli: curve construction hits its error paths (factor found while building the curve); points of
+    # small order are unavoidable there, so only the weak checks apply (tag "weak": reported factor divides n,
+    # generator and results on the curve)
     for n in (5, 7, 11, 35, 55, 77, 91, 1001, 10007, 10583, 10589 * 10597, 3011 * 3259, 311 * 3259, 8596409 * 2621197441,
               65537 * 65539, 1000003 * 1000033):
         for seed in (2, 3, 5, 31):
             yield Case(f"suyama {n} {seed}", k=False)
-            yield Case(f"ecm_mul {n} s {seed} 12", k=False, o=False)
-            yield Case(f"ecm_mul {n} e {seed} 12", k=False, o=False)
+            yield Case(f"ecm_mul {n} s {seed} 12", k=False, tag="weak")
+            yield Case(f"ecm_mul {n} e {seed} 12", k=False, tag="weak")
 
 
 # ------------------------------------------------------------------ oracle
@@ -398,6 +442,29 @@ def check_chain(ans, k, maxlen, m):
             return f"opcode {op} out of range"
     if eval_chain(c) != k:
         return f"chain evaluates to {eval_chain(c)}"
+    return None
+
+
+def known_factors(case, n):
+    """prime factors of the modulus when the generator recorded them (tag f=..) or n is itself prime"""
+    if case.tag and case.tag.startswith("f="):
+        return [int(x) for x in case.tag[2:].split(",")]
+    if gen.is_prime(n):
+        return [n]
+    return None
+
+
+def same_point(n, fs, R, ref):
+    """R must be a NON-ZERO triple projectively equal to the reference modulo every known prime factor
+    (the zero triple would pass every cross-product test). A prime where the reference itself is
+    degenerate (exceptional point of the reference law: Z = 0) is skipped."""
+    for p in (fs or [n]):
+        if ref[2] % p == 0:
+            continue
+        if not nonzero(p, R):
+            return "zero triple modulo a prime factor of the modulus"
+        if not proj_eq(p, R, ref):
+            return "differs from the reference point"
     return None
 
 
@@ -426,15 +493,17 @@ def oracle(case, ans):
         if not on_curve(n, aa, d, G) or not nonzero(n, G):
             return "generator is not on the curve the constructor returned"
         ks = [int(x) for x in a[-1].split(",")]
+        fs = known_factors(case, n)
         ref = ed_mul(n, aa, d, math.prod(ks), G)
         for R in g[1:]:
             R = tuple(R)
             if not on_curve(n, aa, d, R):
                 return "result is not on the curve"
-            if not proj_eq(n, R, ref):
-                return "result differs from double-and-add with the Edwards addition law"
-        if len(g) == 3 and not proj_eq(n, tuple(g[1]), tuple(g[2])):
-            return "the two scalar multiplications disagree"
+            if case.tag == "weak":
+                continue
+            msg = same_point(n, fs, R, ref)
+            if msg:
+                return "scalar multiple: " + msg + " (double-and-add with the Edwards addition law)"
         return None
     if op in ("ed_chainmul", "ed_chainmul1024"):
         n, tw, d = int(a[0]), a[1] == "true", int(a[2])
@@ -443,10 +512,14 @@ def oracle(case, ans):
         if not on_curve(n, aa, d, P):
             return None
         ref = ed_mul(n, aa, d, int(a[6]), P)
+        fs = known_factors(case, n)
         for R in ans.split(" ; "):
             R = tuple(ints(R))
-            if not on_curve(n, aa, d, R) or not proj_eq(n, R, ref):
-                return "scalar multiple differs from double-and-add with the Edwards addition law"
+            if not on_curve(n, aa, d, R):
+                return "scalar multiple is not on the curve"
+            msg = same_point(n, fs, R, ref)
+            if msg:
+                return "scalar multiple: " + msg + " (double-and-add with the Edwards addition law)"
         return None
     if op == "ed128_chainmul":
         n = int(a[0])
@@ -456,9 +529,10 @@ def oracle(case, ans):
             return None
         d = (-P[0] ** 2 * P[2] ** 2 + P[1] ** 2 * P[2] ** 2 - P[2] ** 4) * pow(P[0] ** 2 * P[1] ** 2, -1, n) % n
         R = tuple(ints(ans))
-        if not on_curve(n, -1, d, R) or not proj_eq(n, R, ed_mul(n, -1, d, k, P)):
-            return "ecm128 scalar multiple differs from double-and-add with the Edwards addition law"
-        return None
+        if not on_curve(n, -1, d, R):
+            return "ecm128 scalar multiple is not on the curve"
+        msg = same_point(n, known_factors(case, n), R, ed_mul(n, -1, d, k, P))
+        return None if not msg else "ecm128 scalar multiple: " + msg + " (double-and-add with the Edwards addition law)"
     if op == "ed_ops":
         n, tw, d = int(a[0]), a[1] == "true", int(a[2])
         aa = -1 if tw else 1
@@ -470,12 +544,22 @@ def oracle(case, ans):
         if not (on_curve(n, aa, d, P) and on_curve(n, aa, d, Q)):
             return None
         S, D2 = ed_add(n, aa, d, P, Q), ed_add(n, aa, d, P, P)
-        Dm = ed_add(n, aa, d, P, ((-Q[0]) % n, Q[1], Q[2]))
+        negQ = ((-Q[0]) % n, Q[1], Q[2])
+        Dm = ed_add(n, aa, d, P, negQ)
+        fs = known_factors(case, n)
         add, dbl, dblext, pext, addext, addextproj, subextproj = [tuple(ints(x)) for x in g[:7]]
-        for nm, R, ref in (("add", add, S), ("double", dbl, D2), ("dblext", dblext[:3], D2), ("to_extended", pext[:3], P),
-                           ("addext", addext[:3], S), ("addextproj", addextproj, S), ("subextproj", subextproj, Dm)):
+        # the dedicated extended addition returns the zero quadruple on equal arguments (documented in the source):
+        # non-zero is demanded only modulo the primes where the two arguments differ
+        fs_add = [p for p in (fs or [n]) if not proj_eq(p, P, Q)]
+        fs_sub = [p for p in (fs or [n]) if not proj_eq(p, P, negQ)]
+        for nm, R, ref, ff in (("add", add, S, fs), ("double", dbl, D2, fs), ("dblext", dblext[:3], D2, fs),
+                               ("to_extended", pext[:3], P, fs), ("addext", addext[:3], S, fs_add),
+                               ("addextproj", addextproj, S, fs_add), ("subextproj", subextproj, Dm, fs_sub)):
             if not on_curve(n, aa, d, R) or not proj_eq(n, R, ref):
                 return f"{nm} differs from the Edwards addition law"
+            msg = same_point(n, ff, R, ref) if ff != [] else None
+            if msg:
+                return f"{nm}: {msg}"
         for nm, R in (("dblext", dblext), ("to_extended", pext), ("addext", addext)):
             if (R[3] * R[2] - R[0] * R[1]) % n:
                 return f"{nm}: T Z != X Y"
@@ -493,10 +577,16 @@ def oracle(case, ans):
             return None
         S, D2 = ed_add(n, -1, d, P, Q), ed_add(n, -1, d, P, P)
         add, dbladd, dbl, dblext, pext = [tuple(ints(x)) for x in g[:5]]
-        for nm, R, ref in (("add", add[:3], S), ("dbladd", dbladd, ed_add(n, -1, d, D2, Q)), ("double", dbl, D2),
-                           ("dblext", dblext[:3], D2), ("ext", pext[:3], P)):
+        fs = known_factors(case, n)
+        fs_add = [p for p in (fs or [n]) if not proj_eq(p, P, Q)]
+        fs_dba = [p for p in (fs or [n]) if not proj_eq(p, D2, Q)]
+        for nm, R, ref, ff in (("add", add[:3], S, fs_add), ("dbladd", dbladd, ed_add(n, -1, d, D2, Q), fs_dba),
+                               ("double", dbl, D2, fs), ("dblext", dblext[:3], D2, fs), ("ext", pext[:3], P, fs)):
             if not on_curve(n, -1, d, R) or not proj_eq(n, R, ref):
                 return f"ecm128 {nm} differs from the Edwards addition law"
+            msg = same_point(n, ff, R, ref) if ff != [] else None
+            if msg:
+                return f"ecm128 {nm}: {msg}"
         for nm, R in (("add", add), ("dblext", dblext), ("ext", pext)):
             if (R[3] * R[2] - R[0] * R[1]) % n:
                 return f"ecm128 {nm}: T Z != X Y"
@@ -566,6 +656,12 @@ def klass(case, ans):
     return op
 
 
+def finding_key(case, ans, profile):
+    if case.tag == "degenerate" or any(case.line == l for l, _ in DEGENERATE):
+        return FINDING_DEGENERATE
+    return None
+
+
 def nontrivial(case, ans):
     if case.op == "chain64":
         return int(case.args[0]) > 7
@@ -575,11 +671,19 @@ def nontrivial(case, ans):
 CLAIM = ("Lean theorems: the 64-bit and the 1024-bit addition-chain builders are total on their non-zero scalars (no overflow or "
          "underflow, no index out of the 33- resp. 384-entry buffer; at most 33 resp. 294 opcodes), their chains denote the "
          "scalar and are well-formed; the chain interpreters of scalar64_chainmul / scalar1024_chainmul / ecm128 scalar64_mul "
-         "compute k.P in every commutative group, hence equal double-and-add; curve formulas translated from the source "
-         "satisfy closure / agreement identities (linear_combination certificates). Models are tied to the code by the "
-         "translator (formulas, buffer sizes) and by differential runs (chains, every formula and the full scalar "
-         "multiplications over Z/n, both profiles); a Python oracle with an independent Edwards/Weierstrass group law "
-         "judges every implementation answer.")
+         "compute k.P in every commutative group, hence equal double-and-add there; curve formulas translated from the source "
+         "satisfy closure identities and agreement identities (linear_combination certificates) over every commutative ring. "
+         "Scope of the agreement statements: they are the cross-product equalities of `projective_equal`, which the zero "
+         "triple satisfies trivially; they are informative only where both triples are non-zero modulo every prime factor. "
+         "The dedicated extended addition is NOT complete (theorem addext_self_zero: equal arguments give the zero "
+         "quadruple), so the real scalar64_chainmul/scalar1024_chainmul/ecm128 scalar64_mul return (0,0,0) instead of k.P "
+         "whenever a double-add step meets 2Q = +-iP modulo a prime factor (P of order 1, 2, 4, or a chain prefix m with "
+         "2m = +-i mod ord P): there chain multiplication and double-and-add do NOT agree as points (listed finding, "
+         "witnesses in props/c15.py DEGENERATE and theorem chainmul_degenerate_witness); the group-level theorems do not "
+         "cover that, they assume a total group law. Models are tied to the code by the translator (formulas, buffer "
+         "sizes) and by differential runs (chains, every formula and the full scalar multiplications over Z/n, both "
+         "profiles); a Python oracle with an independent Edwards/Weierstrass group law judges every implementation answer "
+         "and demands a non-zero triple equal to the reference modulo every known prime factor of the modulus.")
 LEVEL_NOTE = ("Trusted: Lean kernel (+propext, Classical.choice, Quot.sound), the translator's parser, the sampled "
               "correspondence of the hand-written chain models, Python integers in the oracle. Modular arithmetic of "
               "ZmodN/M128 is taken to be Z/n (C07).")
